@@ -4,9 +4,24 @@ from props import sessprop
 
 
 def gen(rnd):
+    import world
     cfg = [None, None, 0, rnd.randrange(2), 0]
-    c = sessioncheck.build_case(rnd, n_events=rnd.choice([10, 25, 40]), chatter=0.3, config=cfg, esc_chatter=True)
-    return c
+    d, items = world.gen_history(rnd, n_events=rnd.choice([10, 25, 40]), chatter=0.3, esc_chatter=True)
+    if rnd.random() < 0.08:
+        # very long lines (a data: URL as a title, a binary blob on stderr): one line in, one item out, whatever the length
+        msgs = [it for it in items if it[0] == 'msg']
+        big = rnd.choice([4090, 4200, 65530, 66000, 70000])
+        at = rnd.randrange(len(items) + 1)
+        if msgs and rnd.random() < 0.6:
+            base = msgs[0][2]
+            prev = [it for it in items[:at] if it[0] == 'msg']
+            t = prev[-1][2]['time_us'] if prev else base['time_us']
+            if not prev:
+                at = items.index(msgs[0]) + 1
+            items.insert(at, ('msg', msgs[0][1], dict(base, time_us=t, sent=True, iface='my_widget', id=4100, name='poke', args=[('str', 'u' * big)])))
+        else:
+            items.insert(at, ('text', 'b' * big))
+    return sessioncheck.case_from_items(rnd, d, items, config=cfg)
 
 
 def nontriv(c, m):
